@@ -409,6 +409,18 @@ class TorchShim:
             self.recorder("randn_like", r)
         return r
 
+    def randn(self, *a, **kw):
+        r = real_torch.randn(*a, **kw)
+        if self.recorder is not None:
+            self.recorder("randn", r)
+        return r
+
+    def normal(self, *a, **kw):
+        r = real_torch.normal(*a, **kw)
+        if self.recorder is not None:
+            self.recorder("normal", r)
+        return r
+
     def rand(self, *a, **kw):
         r = real_torch.rand(*a, **kw)
         if self.recorder is not None:
